@@ -373,7 +373,7 @@ def run(repo, tier):
         if not rep.findings:
             raise AnalysisError('encoders bound in INSTRUCTIONS are not reached from assemble(): {}'.format(sorted(enc - it.reached)[:5]))
     rep.floor('functions reached from assemble', 100)
-    rep.floor('exception origins reached', 20)
+    rep.floor('exception origins reached', 8)
     rep.floor('conversions seen', 10)
     rep.floor('AssemblerError constructions', 15)
     rep.floor('Line-holding attribute stores checked', 60)
